@@ -55,6 +55,11 @@ LAYOUTS = [
     # a spelling pathlib does not normalise
     {"pfile": "a.txt", "cfg_spelling": "docs/../a.txt", "ufile": "docs/notes.md", "vp": "MAJOR.MINOR.PATCH", "cur": "1.2.3",
      "args": ["--patch"], "extra_files": {"docs/keep.txt": "keep\n"}},
+    # an unrelated file whose name is the pattern file's name plus a blank
+    {"pfile": "README.md", "ufile": " README.md", "vp": "MAJOR.MINOR.PATCH", "cur": "1.2.3", "args": ["--patch"]},
+    # a user setting that hides untracked files from `git status`
+    {"pfile": "a.txt", "ufile": "other.txt", "vp": "MAJOR.MINOR.PATCH", "cur": "1.2.3", "args": ["--patch"],
+     "git_config": [("status.showUntrackedFiles", "no")]},
     # a name that looks like git's rename notation
     {"pfile": "draft -> final.txt", "ufile": "x -> y.md", "vp": "MAJOR.MINOR.PATCH", "cur": "1.2.3", "args": ["--patch"]},
     # the unrelated file's name is a string prefix of the pattern file's path (README next to README.md)
@@ -71,7 +76,7 @@ def cases(ctx):
             if rep > 0 and li != rep % len(LAYOUTS):
                 continue
             if rep == 0 and li in (1, 2) and ctx.quick:
-                # quick: the full product on layouts 0, 3..11; layouts 1, 2 only in thorough
+                # quick: the full product on layouts 0, 3..13; layouts 1, 2 only in thorough
                 continue
             for st in STATUSES:
                 for role in ROLES:
@@ -281,8 +286,8 @@ def run_case(ctx, case):
                 git(d, "add", "vendor/lib")
         else:
             make_status(d, ufile, us, ucontent)
-        porcelain = git(d, "status", "--porcelain")
-        entries = git(d, "status", "--porcelain", "-z").split("\0")     # names unquoted
+        porcelain = git(d, "status", "--porcelain", "--untracked-files=normal")
+        entries = git(d, "status", "--porcelain", "-z", "--untracked-files=normal").split("\0")     # names unquoted
         want_codes = []
         for rel, st in ((pfile, ps), (ufile, us)):
             if st == "clean":
